@@ -4,7 +4,8 @@
     - points are rows [list (F N)]; a data set is a list of rows plus the column count [m]
       (numpy's [data.shape = (n, m)]);
     - Python's [None] for a (sub)tree is the constructor [Nil]: [build] returns [None] for an empty
-      array, so a split whose upper (or lower) part is empty produces a node with a missing child;
+      array, so a split whose upper (or lower) part is empty would produce a node with a missing
+      child (the fourth clause of the stop rule excludes an empty upper part);
     - the per-tree-id dictionaries [num_samples_in_compared_subtrees] are association lists
       (tree ids are integers; 0 is ["build"]);
     - the recursion of [KDQTreeNode.build] has no structural bound, so [build_node] takes explicit
@@ -106,12 +107,15 @@ Variable mins : list F.       (* min_cutpoint_sizes (as the floats they are comp
 Definition axis_of (depth : Z) : Z := depth mod m.
 
 (** n <= count_ubound or np.unique(data).size <= count_ubound or new_cell_size <= min_cutpoint_sizes[axis]
-    (written with [if] so that evaluation short-circuits like Python's [or]) *)
+    or midpoint_at_axis >= np.max(data[:, axis])
+    (written with [if] so that evaluation short-circuits like Python's [or]; the last clause makes a
+    node a leaf when the midpoint rounds up to the maximum, i.e. nothing would lie above it) *)
 Definition stop_rule (data : list point) (depth : Z) : bool :=
   let axis := axis_of depth in
   if (len data <=? cub)%Z then true
   else if (distinct (concat data) <=? cub)%Z then true
-  else cell_size axis data <=? nth (Z.to_nat axis) mins f0.
+  else if cell_size axis data <=? nth (Z.to_nat axis) mins f0 then true
+  else col_max (column axis data) <=? midpoint axis data.
 
 (** KDQTreeNode.build; the second component is [true] iff the fuel ran out somewhere *)
 Fixpoint build_node (fuel : nat) (data : list point) (depth : Z) : tree * bool :=
